@@ -1,4 +1,536 @@
-import SdbModel.Model.Table
-/-! # C04 — theorems under construction (see DESIGN.md section 4) -/
+import SdbModel.Lemmas.Index
+import SdbModel.Lemmas.IndexBound
+import SdbModel.Props.C03
+import SdbModel.Props.C09
+
+/-!
+# C04 — all indexes agree with the table contents; queries are exact and ordered
+
+> Every index of a table always describes exactly the table's current objects: Get, List, Prefix,
+> LowerBound, All, NumObjects and by-revision queries through primary, unique, non-unique, multi-key
+> and longest-prefix-match indexes return precisely the objects whose index keys satisfy the query -
+> none missing, none stale, no object twice for one key - in ascending index-key order with ties
+> broken by primary key. This holds for empty keys and keys containing any byte values, after any
+> sequence of inserts, key-changing updates and deletes, inside a write transaction as well as on
+> snapshots.
+
+Theorems over `Model.Table` (`Tbl.TableS` with the indexes `primary`, `revIdx`, `uIdx`, `tagIdx`, `lpm`,
+`ulpm`; maintenance by `reindexUnique` / `reindexNonUnique` / `reindexLpm` inside `modify` / `delete`;
+queries `qGet`, `qList`, `qPrefix`, `qLowerBound`, `qAll`, `numObjects`), for EVERY table state satisfying
+the invariants `Tbl.IdxInv B` (Lemmas/Index.lean: primary index sorted with every object under its own
+id; the unique index `uIdx` holds exactly the live objects under `Obj.ukey`; the non-unique multi-key
+index `tagIdx` holds exactly one entry `P.composite id tag` per live object and tag of it; both sorted;
+the LPM tries `lpm` / `ulpm` are well formed (C13) and their buckets hold, sorted by primary key, exactly
+the live objects having that normalised prefix among `pfxs` / `upKey`) and `Tbl.TInv` (Lemmas/Table.lean,
+C03/C09: revision index mirrors the primary index) and EVERY query key (all byte values, the empty key).
+The unique and LPM clauses apply to tables that have these indexes (`t.full = true`; the model's second
+table has only the primary and the non-unique index).  `IdxInv` is proved for the empty table and
+preserved by every write operation with every argument (`C04_inv_*`) - inserts, updates that change, add, drop or duplicate secondary keys,
+deletes, DeleteAll - hence it holds after every operation sequence on a table (`C04_inv_reachable`)
+and for every table of every reachable database state, the committed snapshot as well as the tables of
+the open write transaction (`C04_db_inv_reachable`).
+
+Preconditions on written objects (`Tbl.ObjOk`, `Tbl.UniqOk`) are the documented ones: LPM keys have
+enough data bytes for their prefix length (`EncodeLPMKey` panics otherwise) and, for the UNIQUE LPM index,
+no other live object has the written object's key (`Unique` indexes: "each key maps to exactly one
+object"; the example at the end of Lemmas/IndexLpmQ.lean shows that model and code silently overwrite
+otherwise).  The LPM `Get` / `List` theorems carry C13's full-length hypothesis (the query is at least as
+long as every stored prefix, e.g. an address); `C04_lpm_list_own_key` needs none.
+
+The parameter `B` bounds the ESCAPED length of the live primary keys (`Tbl.ObjOk B o` is the
+precondition on written objects: the id is a byte string, `< 256` per byte, with `|enc id| < B`).
+Results on the non-unique index need `B ≤ 65536` (the composite key stores `|enc id|` in a uint16);
+the tie-break "by primary key" needs `B ≤ 256`: that is known finding K2 (`C18_composite_order_refuted`,
+here `C04_tags_list_by_primary_key_refuted`), the theorems that depend on it say so;
+`C04_tags_list_long_primary_refuted` shows that the uint16 bound is needed too.  The unique key `ukey` contains the hex form of the id, so
+"unique keys are unique over the live objects" holds by construction for byte-string ids.
+-/
 namespace Sdb
+open Tbl Tbl.OMap
+
+/-! ## the invariant: initial, preserved, reachable -/
+
+/-- the empty table (any flags, any revision) satisfies the index invariant -/
+theorem C04_inv_initial (B : Nat) (t : TableS) (hp : t.primary = []) (ht : t.tagIdx = []) (hu : t.uIdx = [])
+    (hl : t.lpm = {}) (hul : t.ulpm = {}) : IdxInv B t := IdxInv.empty B t hp ht hu hl hul
+
+/-- Insert / Modify / CompareAndSwap (incl. updates that change, add or drop secondary keys) preserve
+    the index invariant, for all arguments -/
+theorem C04_inv_preserved_by_modify (B : Nat) (t : TableS) (inv : IdxInv B t) (guard : Nat) (o : Obj)
+    (merge : Bool) (ho : ObjOk B o) (hu : t.full = true → UniqOk t o) : IdxInv B (modify t guard o merge).1 :=
+  inv.modify_preserves guard o merge ho hu
+
+/-- Delete / CompareAndDelete preserve the index invariant, for all arguments -/
+theorem C04_inv_preserved_by_delete (B : Nat) (t : TableS) (inv : IdxInv B t) (guard : Nat) (id : Key) :
+    IdxInv B (delete t guard id).1 := inv.delete_preserves guard id
+
+/-- DeleteAll preserves the index invariant -/
+theorem C04_inv_preserved_by_deleteAll (B : Nat) (t : TableS) (inv : IdxInv B t) : IdxInv B (deleteAll t).1 :=
+  inv.deleteAll_preserves
+
+/-- the index invariant holds after every sequence of write operations on a table -/
+theorem C04_inv_reachable (B : Nat) (t : TableS) (inv : IdxInv B t) (ops : List Op) (hops : RunOk B t ops) :
+    IdxInv B (run t ops) := inv.run ops hops
+
+/-- … and, together with the C03/C09 invariant, for every table of every reachable database state:
+    the committed snapshot (`db.root`) and the tables of the open write transaction (`db.wtxn`) -/
+theorem C04_db_inv_reachable (B : Nat) (db : DB) (h : IReach B db) :
+    (∀ t ∈ db.root, IdxInv B t ∧ TInv t) ∧ ∀ es, db.wtxn = some es → ∀ t ∈ es, IdxInv B t ∧ TInv t := by
+  have hi := h.inv
+  have ht := C03_db_inv_reachable db h.reach
+  exact ⟨fun t m => ⟨hi.root t m, ht.1 t m⟩, fun es hes t m => ⟨hi.txn es hes t m, ht.2 es hes t m⟩⟩
+
+/-! ## primary index: Get, List, All, Prefix, LowerBound, NumObjects -/
+
+/-- `All()` lists exactly the live objects, each once, in strictly ascending primary-key order -/
+theorem C04_all_exact_and_ordered (B : Nat) (t : TableS) (inv : IdxInv B t) :
+    (qAll t).Pairwise (fun x y => cmpL x.id y.id = .lt) ∧ ∀ x, x ∈ qAll t ↔ t.primary.get x.id = some x := by
+  constructor
+  · unfold qAll
+    rw [List.pairwise_map]
+    have hs : Sorted t.primary := inv.pOk.sorted
+    unfold Sorted at hs
+    refine List.Pairwise.imp_of_mem ?_ hs
+    intro a b ha hb hlt
+    rw [inv.pOk.idOk a.1 a.2 ((inv.pOk.mem _ _).mp ha), inv.pOk.idOk b.1 b.2 ((inv.pOk.mem _ _).mp hb)]
+    exact hlt
+  · intro x
+    unfold qAll
+    rw [List.mem_map]
+    constructor
+    · rintro ⟨⟨k, v⟩, hm, rfl⟩
+      have hg := (inv.pOk.mem k v).mp hm
+      have := inv.pOk.idOk k v hg
+      simp only; rw [this]; exact hg
+    · intro h
+      exact ⟨(x.id, x), (inv.pOk.mem _ _).mpr h, rfl⟩
+
+/-- `Get` / `List` by primary key: the live object with that id, if any (`List` yields at most one) -/
+theorem C04_primary_get (B : Nat) (t : TableS) (inv : IdxInv B t) (key : Key) (x : Obj) :
+    (qGet t .id key 0 = some x ↔ x ∈ qAll t ∧ x.id = key) ∧ qList t .id key 0 = (qGet t .id key 0).toList := by
+  refine ⟨?_, rfl⟩
+  rw [(C04_all_exact_and_ordered B t inv).2]
+  simp only [qGet]
+  constructor
+  · intro h
+    have := inv.pOk.idOk _ _ h
+    exact ⟨by rw [this]; exact h, this⟩
+  · rintro ⟨h, rfl⟩; exact h
+
+private theorem filter_primary (t : TableS) (hp : POk t.primary) (q : Key → Bool) :
+    (t.primary.filter (fun e => q e.1)).map (·.2) = (qAll t).filter (fun x => q x.id) := by
+  unfold qAll
+  rw [List.filter_map]
+  congr 1
+  apply List.filter_congr
+  intro e he
+  have := hp.idOk e.1 e.2 ((hp.mem _ _).mp he)
+  simp [this]
+
+/-- `Prefix` on the primary index: exactly the objects of `All()` whose id has the prefix, in the same order -/
+theorem C04_primary_prefix (B : Nat) (t : TableS) (inv : IdxInv B t) (p : Key) :
+    qPrefix t .id p 0 = (qAll t).filter (fun x => hasPrefix x.id p) :=
+  filter_primary t inv.pOk (fun k => hasPrefix k p)
+
+/-- `LowerBound` on the primary index: exactly the objects of `All()` whose id is not below the bound,
+    in the same order -/
+theorem C04_primary_lowerBound (B : Nat) (t : TableS) (inv : IdxInv B t) (p : Key) :
+    qLowerBound t .id p 0 = (qAll t).filter (fun x => cmpL x.id p != .lt) :=
+  filter_primary t inv.pOk (fun k => cmpL k p != .lt)
+
+/-- `NumObjects` is the number of live objects -/
+theorem C04_numObjects (t : TableS) (inv : TInv t) : numObjects t = (qAll t).length := inv.numObjects
+
+/-! ## revision index -/
+
+/-- by-revision lookups find exactly the live object with that revision; the revision index lists every
+    live object once, in strictly ascending revision order, and `LowerBound` (ByRevision) the ones at or
+    above the bound -/
+theorem C04_revision_index (t : TableS) (inv : TInv t) (r : Nat) (hr : r < 2 ^ 64) :
+    (∀ x, qGet t .rev (revKey r) 0 = some x ↔ x ∈ qAll t ∧ x.rev = r) ∧
+    qList t .rev (revKey r) 0 = (qGet t .rev (revKey r) 0).toList ∧
+    ((qLowerBound t .rev (revKey r) 0).map (·.rev)).Pairwise (· < ·) ∧
+    (∀ x, x ∈ qLowerBound t .rev (revKey r) 0 ↔ x ∈ qAll t ∧ r ≤ x.rev) ∧
+    (∀ x, x ∈ t.revIdx.map (·.2) ↔ x ∈ qAll t) ∧ (t.revIdx.map (·.2)).Nodup :=
+  ⟨fun x => C09_get_by_revision t inv r hr x, rfl, (C09_query_by_revision_ascending t inv r hr).1,
+    (C09_query_by_revision_ascending t inv r hr).2, inv.mem_revIdx_objs, inv.revIdx_objs_nodup⟩
+
+/-! ## unique secondary index -/
+
+/-- the unique index lists exactly the live objects (none missing, none stale), each once, in strictly
+    ascending order of the unique key -/
+theorem C04_unique_index_contents (B : Nat) (t : TableS) (inv : IdxInv B t) (hf : t.full = true) :
+    (∀ x, x ∈ t.uIdx.map (·.2) ↔ x ∈ qAll t) ∧
+    (t.uIdx.map (·.2)).Pairwise (fun a b => cmpL a.ukey b.ukey = .lt) := by
+  refine ⟨fun x => ?_, (inv.u hf).objs_sorted⟩
+  rw [(inv.u hf).mem_objs, (C04_all_exact_and_ordered B t inv).2]
+
+/-- `Get` / `List` through the unique index: the live object whose unique key equals the query, if any -/
+theorem C04_unique_get (B : Nat) (t : TableS) (inv : IdxInv B t) (hf : t.full = true) (key : Key) (x : Obj) :
+    (qGet t .u key 0 = some x ↔ x ∈ qAll t ∧ x.ukey = key) ∧ qList t .u key 0 = (qGet t .u key 0).toList := by
+  refine ⟨?_, rfl⟩
+  rw [(inv.u hf).qGet_iff, (C04_all_exact_and_ordered B t inv).2]
+
+/-- `Prefix` through the unique index: exactly the entries of the (key-ordered, duplicate-free) index
+    listing whose unique key has the prefix, in that order -/
+theorem C04_unique_prefix (B : Nat) (t : TableS) (inv : IdxInv B t) (hf : t.full = true) (key : Key) :
+    qPrefix t .u key 0 = (t.uIdx.map (·.2)).filter (fun x => hasPrefix x.ukey key) :=
+  (inv.u hf).qPrefix_eq key 0
+
+/-- `LowerBound` through the unique index: exactly the entries of the index listing whose unique key is
+    not below the query, in that order -/
+theorem C04_unique_lowerBound (B : Nat) (t : TableS) (inv : IdxInv B t) (hf : t.full = true) (key : Key) :
+    qLowerBound t .u key 0 = (t.uIdx.map (·.2)).filter (fun x => cmpL x.ukey key != .lt) :=
+  (inv.u hf).qLowerBound_eq key 0
+
+/-- membership form: `Prefix` / `LowerBound` through the unique index return precisely the live objects
+    whose unique key satisfies the query -/
+theorem C04_unique_prefix_lowerBound_exact (B : Nat) (t : TableS) (inv : IdxInv B t) (hf : t.full = true)
+    (key : Key) (x : Obj) :
+    (x ∈ qPrefix t .u key 0 ↔ x ∈ qAll t ∧ key <+: x.ukey) ∧
+    (x ∈ qLowerBound t .u key 0 ↔ x ∈ qAll t ∧ cmpL x.ukey key ≠ .lt) := by
+  rw [C04_unique_prefix B t inv hf, C04_unique_lowerBound B t inv hf, List.mem_filter, List.mem_filter,
+    (C04_unique_index_contents B t inv hf).1, hasPrefix_iff]
+  simp
+
+/-! ## non-unique multi-key index -/
+
+/-- **none missing, none stale**: read as (tag, primary key, object) triples (`Tbl.tagTriples`), the
+    non-unique index holds exactly the triples (tag, x.id, x) for the live objects x and their tags -/
+theorem C04_tags_index_contents (B : Nat) (t : TableS) (inv : IdxInv B t) (tag id : Key) (x : Obj) :
+    (tag, id, x) ∈ tagTriples t.tagIdx ↔ x ∈ qAll t ∧ id = x.id ∧ tag ∈ x.tags := by
+  rw [inv.tag.mem_triples, (C04_all_exact_and_ordered B t inv).2]
+
+/-- **no object twice for one key** (also for objects listing a tag several times) -/
+theorem C04_tags_index_no_duplicates (B : Nat) (t : TableS) (inv : IdxInv B t) :
+    (tagTriples t.tagIdx).Pairwise (fun a b => ¬ (a.1 = b.1 ∧ a.2.1 = b.2.1)) := inv.tag.triples_distinct
+
+/-- **ascending index-key order with ties broken by primary key**, for encoded primary keys shorter than
+    256 bytes (partial: without the bound the tie-break can be wrong, K2 / `C18_composite_order_refuted`) -/
+theorem C04_tags_index_order_partial (t : TableS) (inv : IdxInv 256 t) :
+    (tagTriples t.tagIdx).Pairwise (fun a b => Ordering.thenO (cmpL a.1 b.1) (cmpL a.2.1 b.2.1) = .lt) :=
+  inv.tag.triples_sorted inv.idLen
+
+/-- `List` through the non-unique index = the triples with exactly that tag, in index order -/
+theorem C04_tags_list (B : Nat) (hB : B ≤ 65536) (t : TableS) (inv : IdxInv B t) (key : Key) :
+    qList t .tags key 0 = ((tagTriples t.tagIdx).filter (fun tr => tr.1 == key)).map (·.2.2) :=
+  qList_tags_eq t inv.tag (inv.idLen.mono hB) key 0
+
+/-- `List` returns precisely the live objects having the tag, none twice -/
+theorem C04_tags_list_exact (B : Nat) (hB : B ≤ 65536) (t : TableS) (inv : IdxInv B t) (key : Key) :
+    (∀ x, x ∈ qList t .tags key 0 ↔ x ∈ qAll t ∧ key ∈ x.tags) ∧
+    (qList t .tags key 0).Pairwise (fun a b => a.id ≠ b.id) := by
+  refine ⟨fun x => ?_, inv.tag.qList_nodup (inv.idLen.mono hB) key 0⟩
+  rw [inv.tag.mem_qList (inv.idLen.mono hB), (C04_all_exact_and_ordered B t inv).2]
+
+/-- `List` is in strictly ascending primary-key order (partial: encoded primary keys below 256 bytes, K2) -/
+theorem C04_tags_list_by_primary_key_partial (t : TableS) (inv : IdxInv 256 t) (key : Key) :
+    (qList t .tags key 0).Pairwise (fun a b => cmpL a.id b.id = .lt) :=
+  inv.tag.qList_sorted inv.idLen key 0
+
+/-- without any bound beyond the uint16 one, `List` is in strictly ascending order of the composite keys
+    `P.composite id key` - which C18 relates to the order of the primary keys -/
+theorem C04_tags_list_by_composite_key (B : Nat) (hB : B ≤ 65536) (t : TableS) (inv : IdxInv B t) (key : Key) :
+    (qList t .tags key 0).Pairwise (fun a b => cmpL (P.composite a.id key) (P.composite b.id key) = .lt) :=
+  TagInv.qList_sorted_by_composite inv.tag (inv.idLen.mono hB) key 0
+
+/-- **K2 (known finding) seen through a query**: the tie-break by primary key is FALSE without the
+    256-byte bound.  Witness: the table reached by inserting two objects with primary keys of 256 and 257
+    zero bytes, both tagged with the empty key; the invariant holds (`B = 65536`) but `List` by that tag
+    returns the object with the LONGER (= larger) primary key first. -/
+theorem C04_tags_list_by_primary_key_refuted :
+    ∃ (t : TableS) (key : Key), IdxInv 65536 t ∧
+      ¬ (qList t .tags key 0).Pairwise (fun a b => cmpL a.id b.id = .lt) := tags_list_order_witness
+
+/-- `Get` through the non-unique index is the first object of `List` -/
+theorem C04_tags_get_is_first_of_list (t : TableS) (key : Key) :
+    qGet t .tags key 0 = (qList t .tags key 0).head? := qGet_tags_eq t key 0
+
+/-- `Prefix` through the non-unique index = the triples whose tag has the query as a prefix, in index
+    order, every object reported at its first occurrence only (`Tbl.firstById`) -/
+theorem C04_tags_prefix (B : Nat) (hB : B ≤ 65536) (t : TableS) (inv : IdxInv B t) (key : Key) :
+    qPrefix t .tags key 0 =
+      firstById (((tagTriples t.tagIdx).filter (fun tr => hasPrefix tr.1 key)).map (·.2.2)) [] :=
+  qPrefix_tags_eq t inv.tag (inv.idLen.mono hB) key 0
+
+/-- `LowerBound` through the non-unique index = the triples whose tag is not below the query, in index
+    order, every object reported at its first occurrence only -/
+theorem C04_tags_lowerBound (B : Nat) (hB : B ≤ 65536) (t : TableS) (inv : IdxInv B t) (key : Key) :
+    qLowerBound t .tags key 0 =
+      firstById (((tagTriples t.tagIdx).filter (fun tr => cmpL tr.1 key != .lt)).map (·.2.2)) [] :=
+  qLowerBound_tags_eq t inv.tag (inv.idLen.mono hB) key 0
+
+/-- `Prefix` / `LowerBound` return precisely the live objects with a matching tag, each once however many
+    of its tags match -/
+theorem C04_tags_prefix_lowerBound_exact (B : Nat) (hB : B ≤ 65536) (t : TableS) (inv : IdxInv B t) (key : Key) :
+    (∀ x, x ∈ qPrefix t .tags key 0 ↔ x ∈ qAll t ∧ ∃ tag ∈ x.tags, key <+: tag) ∧
+    (qPrefix t .tags key 0).Pairwise (fun a b => a.id ≠ b.id) ∧
+    (∀ x, x ∈ qLowerBound t .tags key 0 ↔ x ∈ qAll t ∧ ∃ tag ∈ x.tags, cmpL tag key ≠ .lt) ∧
+    (qLowerBound t .tags key 0).Pairwise (fun a b => a.id ≠ b.id) := by
+  have hl := inv.idLen.mono hB
+  refine ⟨fun x => ?_, inv.tag.qPrefix_nodup hl key 0, fun x => ?_, inv.tag.qLowerBound_nodup hl key 0⟩
+  · rw [inv.tag.mem_qPrefix hl, (C04_all_exact_and_ordered B t inv).2]
+  · rw [inv.tag.mem_qLowerBound hl, (C04_all_exact_and_ordered B t inv).2]
+
+/-! ## longest-prefix-match indexes -/
+
+/-- **none missing, none stale, ordered**: read as (prefix data, prefix length, object) triples in
+    iteration order (`Tbl.lpmPairs` of the trie's entries), the non-unique LPM index holds exactly the
+    triples for the live objects and their normalised prefixes, strictly ascending in (index key, primary
+    key) - `Tbl.pairLt`: `Lpm.keyLt` on the prefixes, then `cmpL` on the ids - hence no object twice for one key -/
+theorem C04_lpm_index_contents (B : Nat) (t : TableS) (inv : IdxInv B t) (hf : t.full = true) :
+    (∀ d p x, (d, p, x) ∈ lpmPairs (Lpm.preorder t.lpm.t) ↔ x ∈ qAll t ∧ (d, p) ∈ x.pfxs.map normKey) ∧
+    (lpmPairs (Lpm.preorder t.lpm.t)).Pairwise pairLt := by
+  refine ⟨fun d p x => ?_, (inv.lpm hf).pairs_ascending inv.pOk⟩
+  rw [(inv.lpm hf).mem_pairs inv.pOk, (C04_all_exact_and_ordered B t inv).2]
+
+/-- the same for the unique LPM index (key `upKey`) -/
+theorem C04_ulpm_index_contents (B : Nat) (t : TableS) (inv : IdxInv B t) (hf : t.full = true) :
+    (∀ d p x, (d, p, x) ∈ lpmPairs (Lpm.preorder t.ulpm.t) ↔ x ∈ qAll t ∧ (d, p) ∈ x.upKey.map normKey) ∧
+    (lpmPairs (Lpm.preorder t.ulpm.t)).Pairwise pairLt := by
+  refine ⟨fun d p x => ?_, (inv.ulpm hf).pairs_ascending inv.pOk⟩
+  rw [(inv.ulpm hf).mem_pairs inv.pOk, (C04_all_exact_and_ordered B t inv).2]
+
+/-- **`List` / `Get` through the non-unique LPM index = longest-prefix match over the live objects'
+    prefixes**: for a query at least as long as every live prefix, either no live object has a prefix
+    covering the query and nothing is returned, or `List` returns exactly the live objects having the
+    longest covering prefix, each once in ascending primary-key order, and `Get` the first of them -/
+theorem C04_lpm_list_get (B : Nat) (t : TableS) (inv : IdxInv B t) (hf : t.full = true)
+    (key : Key) (plen : Nat) (hq : LKeyOk (key, plen))
+    (hfull : ∀ pk x, t.primary.get pk = some x → ∀ k ∈ x.pfxs, k.2 ≤ plen) :
+    ((∀ pk x, t.primary.get pk = some x → ∀ k ∈ x.pfxs.map normKey,
+        ¬ Lpm.Covers k.1 k.2 (Lpm.maskData key plen) plen) ∧
+      qList t .lpm key plen = [] ∧ qGet t .lpm key plen = none) ∨
+    (∃ d' p', Lpm.Covers d' p' (Lpm.maskData key plen) plen ∧
+      (∀ pk x, t.primary.get pk = some x → ∀ k ∈ x.pfxs.map normKey,
+        Lpm.Covers k.1 k.2 (Lpm.maskData key plen) plen → k.2 ≤ p') ∧
+      (∀ x, x ∈ qList t .lpm key plen ↔ t.primary.get x.id = some x ∧ (d', p') ∈ x.pfxs.map normKey) ∧
+      (qList t .lpm key plen).Pairwise (fun a b => cmpL a.id b.id = .lt) ∧
+      qList t .lpm key plen ≠ [] ∧
+      qGet t .lpm key plen = (qList t .lpm key plen).head?) :=
+  qList_lpm_spec t (inv.lpm hf) inv.pOk key plen hq hfull
+
+/-- `Get` through the non-unique LPM index returns the match with the least primary key -/
+theorem C04_lpm_get_least_primary_key (B : Nat) (t : TableS) (inv : IdxInv B t) (hf : t.full = true)
+    (key : Key) (plen : Nat) (hq : LKeyOk (key, plen))
+    (hfull : ∀ pk x, t.primary.get pk = some x → ∀ k ∈ x.pfxs, k.2 ≤ plen)
+    (hne : qList t .lpm key plen ≠ []) :
+    ∃ x, qGet t .lpm key plen = some x ∧ x ∈ qList t .lpm key plen ∧
+      ∀ y ∈ qList t .lpm key plen, y = x ∨ cmpL x.id y.id = .lt :=
+  qGet_lpm_least t (inv.lpm hf) inv.pOk key plen hq hfull hne
+
+/-- **`List` / `Get` through the unique LPM index**: nothing if no live object's key covers the query,
+    otherwise THE live object having the longest covering key -/
+theorem C04_ulpm_list_get (B : Nat) (t : TableS) (inv : IdxInv B t) (hf : t.full = true)
+    (key : Key) (plen : Nat) (hq : LKeyOk (key, plen))
+    (hfull : ∀ pk x, t.primary.get pk = some x → ∀ k ∈ x.upKey, k.2 ≤ plen) :
+    ((∀ pk x, t.primary.get pk = some x → ∀ k ∈ x.upKey.map normKey,
+        ¬ Lpm.Covers k.1 k.2 (Lpm.maskData key plen) plen) ∧
+      qList t .ulpm key plen = [] ∧ qGet t .ulpm key plen = none) ∨
+    (∃ d' p' x, Lpm.Covers d' p' (Lpm.maskData key plen) plen ∧
+      (∀ pk y, t.primary.get pk = some y → ∀ k ∈ y.upKey.map normKey,
+        Lpm.Covers k.1 k.2 (Lpm.maskData key plen) plen → k.2 ≤ p') ∧
+      t.primary.get x.id = some x ∧ (d', p') ∈ x.upKey.map normKey ∧
+      (∀ y, t.primary.get y.id = some y → (d', p') ∈ y.upKey.map normKey → y = x) ∧
+      qList t .ulpm key plen = [x] ∧ qGet t .ulpm key plen = some x) :=
+  qList_ulpm_spec t (inv.ulpm hf) inv.pOk key plen hq hfull
+
+/-- querying with a prefix of a live object (`QueryFromObject`; no restriction on the other prefixes):
+    exactly the live objects having that prefix, in ascending primary-key order, the object among them;
+    on the unique index the object itself -/
+theorem C04_lpm_list_own_key (B : Nat) (t : TableS) (inv : IdxInv B t) (hf : t.full = true)
+    (x : Obj) (hx : x ∈ qAll t) :
+    (∀ k ∈ x.pfxs,
+      (∀ y, y ∈ qList t .lpm k.1 k.2 ↔ y ∈ qAll t ∧ normKey k ∈ y.pfxs.map normKey) ∧
+      (qList t .lpm k.1 k.2).Pairwise (fun a b => cmpL a.id b.id = .lt) ∧ x ∈ qList t .lpm k.1 k.2) ∧
+    (∀ k ∈ x.upKey, qList t .ulpm k.1 k.2 = [x] ∧ qGet t .ulpm k.1 k.2 = some x) := by
+  have hx' := ((C04_all_exact_and_ordered B t inv).2 x).mp hx
+  constructor
+  · intro k hk
+    obtain ⟨h1, h2, h3⟩ := qList_lpm_own_key t (inv.lpm hf) inv.pOk x.id x hx' k hk
+    refine ⟨fun y => ?_, h2, h3⟩
+    rw [h1, (C04_all_exact_and_ordered B t inv).2]
+  · intro k hk
+    exact qList_ulpm_own_key t (inv.ulpm hf) inv.pOk x.id x hx' k hk
+
+/-- **`Prefix` through the LPM indexes**: exactly the live objects with a prefix covered by the query
+    (an object once per covered prefix); the underlying (prefix, object) pairs are strictly ascending in
+    (index key, primary key) -/
+theorem C04_lpm_prefix (B : Nat) (t : TableS) (inv : IdxInv B t) (hf : t.full = true)
+    (key : Key) (plen : Nat) (hq : LKeyOk (key, plen)) :
+    (∃ l : List (Key × Nat × Obj), qPrefix t .lpm key plen = l.map (·.2.2) ∧ l.Pairwise pairLt ∧
+      (∀ d p x, (d, p, x) ∈ l ↔ t.primary.get x.id = some x ∧ (d, p) ∈ x.pfxs.map normKey ∧
+        Lpm.Covers (Lpm.maskData key plen) plen d p) ∧
+      ∀ x, x ∈ qPrefix t .lpm key plen ↔
+        t.primary.get x.id = some x ∧ ∃ k ∈ x.pfxs.map normKey, Lpm.Covers (Lpm.maskData key plen) plen k.1 k.2) ∧
+    (∃ l : List (Key × Nat × Obj), qPrefix t .ulpm key plen = l.map (·.2.2) ∧ l.Pairwise pairLt ∧
+      (∀ d p x, (d, p, x) ∈ l ↔ t.primary.get x.id = some x ∧ (d, p) ∈ x.upKey.map normKey ∧
+        Lpm.Covers (Lpm.maskData key plen) plen d p) ∧
+      ∀ x, x ∈ qPrefix t .ulpm key plen ↔
+        t.primary.get x.id = some x ∧ ∃ k ∈ x.upKey.map normKey, Lpm.Covers (Lpm.maskData key plen) plen k.1 k.2) :=
+  ⟨qPrefix_lpm_spec t (inv.lpm hf) inv.pOk key plen hq, qPrefix_ulpm_spec t (inv.ulpm hf) inv.pOk key plen hq⟩
+
+/-- **`LowerBound` through the LPM indexes**: the full ascending listing of (prefix, live object) pairs
+    splits into the pairs whose prefix is below the query (`Lpm.keyLt`) and the pairs `LowerBound` yields,
+    none of which is below the query -/
+theorem C04_lpm_lowerBound (B : Nat) (t : TableS) (inv : IdxInv B t) (hf : t.full = true)
+    (key : Key) (plen : Nat) (hq : LKeyOk (key, plen)) :
+    (∃ pre l : List (Key × Nat × Obj), qLowerBound t .lpm key plen = l.map (·.2.2) ∧
+      (pre ++ l).Pairwise pairLt ∧
+      (∀ d p x, (d, p, x) ∈ pre ++ l ↔ t.primary.get x.id = some x ∧ (d, p) ∈ x.pfxs.map normKey) ∧
+      (∀ a ∈ pre, Lpm.keyLt a.1 a.2.1 (Lpm.maskData key plen) plen) ∧
+      (∀ a ∈ l, ¬ Lpm.keyLt a.1 a.2.1 (Lpm.maskData key plen) plen)) ∧
+    (∃ pre l : List (Key × Nat × Obj), qLowerBound t .ulpm key plen = l.map (·.2.2) ∧
+      (pre ++ l).Pairwise pairLt ∧
+      (∀ d p x, (d, p, x) ∈ pre ++ l ↔ t.primary.get x.id = some x ∧ (d, p) ∈ x.upKey.map normKey) ∧
+      (∀ a ∈ pre, Lpm.keyLt a.1 a.2.1 (Lpm.maskData key plen) plen) ∧
+      (∀ a ∈ l, ¬ Lpm.keyLt a.1 a.2.1 (Lpm.maskData key plen) plen)) :=
+  ⟨qLowerBound_lpm_spec t (inv.lpm hf) inv.pOk key plen hq, qLowerBound_ulpm_spec t (inv.ulpm hf) inv.pOk key plen hq⟩
+
+/-! ## key-changing updates and deletes, seen through the queries -/
+
+/-- after a successful Insert / Modify / CompareAndSwap the secondary indexes describe the new version
+    only: a tag query finds the written version iff it carries the tag now (whatever the replaced version
+    carried), the unique index finds it under its new key only, and all other objects are found as before -/
+theorem C04_queries_after_modify (B : Nat) (hB : B ≤ 65536) (t : TableS) (inv : IdxInv B t) (guard : Nat)
+    (o : Obj) (merge : Bool) (ho : ObjOk B o) (hu : t.full = true → UniqOk t o) (hl : t.locked = true)
+    (hg : GuardOk guard (t.primary.get o.id)) (key : Key) (x : Obj) :
+    (x ∈ qList (modify t guard o merge).1 .tags key 0 ↔
+      (x = newObj t o merge ∧ key ∈ o.tags) ∨ (x.id ≠ o.id ∧ x ∈ qList t .tags key 0)) ∧
+    (t.full = true → (qGet (modify t guard o merge).1 .u key 0 = some x ↔
+      (x = newObj t o merge ∧ key = o.ukey) ∨ (x.id ≠ o.id ∧ qGet t .u key 0 = some x))) := by
+  have inv' := inv.modify_preserves guard o merge ho hu
+  obtain ⟨t', h, hm⟩ := modify_ok t guard o merge hl hg
+  rw [h] at inv'
+  rw [h]
+  simp only
+  have hget : ∀ k, t'.primary.get k = if k = o.id then some (newObj t o merge) else t.primary.get k := by
+    intro k; rw [hm.primary, get_insert]
+  constructor
+  · rw [inv'.tag.mem_qList (inv'.idLen.mono hB), inv.tag.mem_qList (inv.idLen.mono hB), hget]
+    by_cases hx : x.id = o.id
+    · simp only [hx, if_true, ne_eq, not_true_eq_false, false_and, or_false, Option.some.injEq]
+      constructor
+      · rintro ⟨h1, h2⟩; subst h1; exact ⟨rfl, by simpa using h2⟩
+      · rintro ⟨h1, h2⟩; subst h1; exact ⟨rfl, by simpa using h2⟩
+    · simp only [hx, if_false, ne_eq, not_false_eq_true, true_and]
+      constructor
+      · intro h1; exact Or.inr h1
+      · rintro (⟨h1, _⟩ | h1)
+        · subst h1; simp at hx
+        · exact h1
+  · intro hf
+    have hf' : t'.full = true := by rw [hm.full]; exact hf
+    rw [(inv'.u hf').qGet_iff, (inv.u hf).qGet_iff, hget]
+    by_cases hx : x.id = o.id
+    · simp only [hx, if_true, ne_eq, not_true_eq_false, false_and, or_false, Option.some.injEq]
+      constructor
+      · rintro ⟨h1, h2⟩; subst h1; exact ⟨rfl, by simpa using h2.symm⟩
+      · rintro ⟨h1, h2⟩; subst h1; exact ⟨rfl, by simp [h2]⟩
+    · simp only [hx, if_false, ne_eq, not_false_eq_true, true_and]
+      constructor
+      · intro h1; exact Or.inr h1
+      · rintro (⟨h1, _⟩ | h1)
+        · subst h1; simp at hx
+        · exact h1
+
+/-- after a successful Delete / CompareAndDelete no query through a secondary index returns the deleted
+    object, and all other objects are found as before -/
+theorem C04_queries_after_delete (B : Nat) (hB : B ≤ 65536) (t : TableS) (inv : IdxInv B t) (guard : Nat)
+    (id : Key) (old : Obj) (hl : t.locked = true) (hs : t.primary.get id = some old)
+    (hg : guard = 0 ∨ old.rev = guard) (key : Key) (x : Obj) :
+    (x ∈ qList (delete t guard id).1 .tags key 0 ↔ x.id ≠ id ∧ x ∈ qList t .tags key 0) ∧
+    (t.full = true → (qGet (delete t guard id).1 .u key 0 = some x ↔ x.id ≠ id ∧ qGet t .u key 0 = some x)) := by
+  have inv' := inv.delete_preserves guard id
+  obtain ⟨t', h, hd⟩ := delete_ok t guard id hl old hs hg
+  rw [h] at inv'
+  rw [h]
+  simp only
+  have hget : ∀ k, t'.primary.get k = if k = id then none else t.primary.get k := by
+    intro k; rw [hd.primary, get_erase _ inv.pOk.sorted]
+  constructor
+  · rw [inv'.tag.mem_qList (inv'.idLen.mono hB), inv.tag.mem_qList (inv.idLen.mono hB), hget]
+    by_cases hx : x.id = id <;> simp [hx]
+  · intro hf
+    have hf' : t'.full = true := by rw [hd.full]; exact hf
+    rw [(inv'.u hf').qGet_iff, (inv.u hf).qGet_iff, hget]
+    by_cases hx : x.id = id <;> simp [hx]
+
+/-! ## the uint16 bound is needed -/
+
+/-- **finding (related to K2).**  Without the bound `|enc id| < 65536` "none missing" is FALSE for `List` /
+    `Get` through the non-unique index: the composite key stores the escaped primary-key length in a uint16,
+    `nonUniqueKey.primaryLen` reads it back modulo 2^16, and `secondaryLen` is then off by 2^16, so the
+    exact-length filter of `List` skips the entry.  Witness: the table holding one object whose primary key
+    is 65536 bytes `0x02`, tagged `[5]`: the invariant holds (with `B = 65537`), the object is live and has
+    the tag, but `List [5]` does not return it. -/
+theorem C04_tags_list_long_primary_refuted :
+    ∃ (t : TableS) (x : Obj) (key : Key), IdxInv 65537 t ∧ x ∈ qAll t ∧ key ∈ x.tags ∧ x ∉ qList t .tags key 0 := by
+  let big : Obj :=
+    { id := List.replicate 65536 2, val := 0, uvar := 0, tags := [[5]], pfxs := [], up := false, ord := 0, rev := 0 }
+  have hlen : (P.enc big.id).length = 65536 := by
+    show (P.enc (List.replicate 65536 2)).length = 65536
+    rw [enc_replicate_two, List.length_replicate]
+  have hb : ∀ b ∈ big.id, b < 256 := by
+    intro b hb
+    have : b = 2 := List.eq_of_mem_replicate hb
+    omega
+  obtain ⟨t, x, h⟩ := long_primary_missing big [5] rfl hlen hb
+    (fun k hk => by have : big.pfxs = [] := rfl; rw [this] at hk; simp at hk)
+  exact ⟨t, x, [5], h⟩
+
+/-! ## non-vacuity -/
+
+private def oA : Obj :=
+  { id := [], val := 5, uvar := 0, tags := [[3], []], pfxs := [([10, 1], 16)], up := true, ord := 7, rev := 0 }
+private def oB : Obj :=
+  { id := [1, 0, 255], val := 7, uvar := 1, tags := [[3], [3, 0], [3]], pfxs := [([10, 1, 200], 16), ([10], 8)],
+    up := true, ord := 8, rev := 0 }
+private def oC : Obj := { id := [2], val := 1, uvar := 0, tags := [[3]], pfxs := [], up := false, ord := 2, rev := 0 }
+/-- a key-changing update of `oA`: other unique key, tags `[3]` and `[]` dropped, tag `[0]` added, other prefix -/
+private def oA' : Obj := { oA with uvar := 2, tags := [[0]], pfxs := [([10, 2], 16)] }
+private def t0 : TableS := { locked := true }
+private def opsEx : List Op :=
+  [.modify 0 oA false, .modify 0 oB false, .modify 0 oC false, .modify 0 oA' false, .delete 0 [2], .delete 0 [9]]
+
+private theorem opsEx_ok : RunOk 256 t0 opsEx :=
+  ⟨⟨by decide, fun _ => UniqOk_of_all _ _ (by decide)⟩, ⟨by decide, fun _ => UniqOk_of_all _ _ (by decide)⟩,
+   ⟨by decide, fun _ => UniqOk_of_all _ _ (by decide)⟩, ⟨by decide, fun _ => UniqOk_of_all _ _ (by decide)⟩,
+   trivial, trivial, trivial⟩
+
+/-- the invariants hold on a concrete run with the empty key, keys containing 0x00 / 0xff, duplicate
+    tags, prefixes that coincide after masking, a key-changing update and a delete … -/
+example : IdxInv 256 (run t0 opsEx) ∧ TInv (run t0 opsEx) :=
+  ⟨C04_inv_reachable 256 t0 (C04_inv_initial 256 t0 rfl rfl rfl rfl rfl) opsEx opsEx_ok,
+   C03_inv_reachable t0 (TInv.empty t0 rfl rfl (by decide)) opsEx (by decide)⟩
+
+/-- … and the queries evaluate as the theorems say -/
+example :
+    (qAll (run t0 opsEx)).map (·.id) = [[], [1, 0, 255]] ∧
+    (qList (run t0 opsEx) .tags [3] 0).map (·.id) = [[1, 0, 255]] ∧
+    (qList (run t0 opsEx) .tags [0] 0).map (·.id) = [[]] ∧
+    (qList (run t0 opsEx) .tags [] 0) = [] ∧
+    (qPrefix (run t0 opsEx) .tags [3] 0).map (·.id) = [[1, 0, 255]] ∧
+    (qLowerBound (run t0 opsEx) .tags [] 0).map (·.id) = [[], [1, 0, 255]] ∧
+    (tagTriples (run t0 opsEx).tagIdx).map (fun tr => (tr.1, tr.2.1)) =
+      [([0], []), ([3], [1, 0, 255]), ([3, 0], [1, 0, 255])] ∧
+    (qGet (run t0 opsEx) .u (oA'.ukey) 0).map (·.id) = some [] ∧
+    qGet (run t0 opsEx) .u (oA.ukey) 0 = none ∧
+    (lpmPairs (Lpm.preorder (run t0 opsEx).lpm.t)).map (fun a => (a.1, a.2.1, a.2.2.id)) =
+      [([10], 8, [1, 0, 255]), ([10, 1], 16, [1, 0, 255]), ([10, 2], 16, [])] ∧
+    (qList (run t0 opsEx) .lpm [10, 2, 3] 24).map (·.id) = [[]] ∧
+    (qList (run t0 opsEx) .lpm [10, 3, 3] 24).map (·.id) = [[1, 0, 255]] ∧
+    (qList (run t0 opsEx) .ulpm [0, 7] 16).map (·.id) = [[]] ∧
+    numObjects (run t0 opsEx) = 2 := by decide
+
+/-- a reachable database state with a committed snapshot and an open write transaction that has
+    already changed a key: `C04_db_inv_reachable` applies to both -/
+example : IReach 256 (((((newDB.step (.beginW true true)).step (.modify 0 0 oC false)).step .commit).step
+    (.beginW true false)).step (.modify 0 0 { oC with tags := [[]] } false)) := by
+  refine IReach.step _ (IReach.step _ (IReach.step _ (IReach.step _ (IReach.step _ IReach.init ?_ ?_) ?_ ?_) ?_ ?_) ?_ ?_) ?_ ?_
+  all_goals first
+    | exact DB.bounded_of_boundedB _ (by decide)
+    | exact trivial
+    | (refine ⟨by decide, ?_⟩; split <;> first | exact trivial | exact fun _ => UniqOk_of_not_up _ _ rfl)
+
 end Sdb
